@@ -217,7 +217,7 @@ def routing_rule(check, P):
                     n += 1
                     check.violation("R1", f"tracer:{fn.name}:{c.func.attr}", f"PathTracer.{fn.name} produces output through {c.func.attr}(), which runs no move hooks",
                                     [f"gscrib/geometry/tracer.py:{c.lineno}"])
-    check.floor(n >= 2, "C20.R1: fewer than 2 move() call sites found in the tracer")
+    check.floor(n >= 1, "C20.R1: no move() call site found in the tracer")
 
 
 def pins(key):
